@@ -582,6 +582,8 @@ SHAPE_PRESERVING_PRODUCERS = {"Cast", "CastLike", "Identity"}
 SHAPE_PRESERVING_HELPERS = {"clone_value_for_subgraph", "_maybe_cast_value", "builder_identity", "builder_cast"}
 # a per-step slice of a stacked sequence: Gather(seq, <scalar iteration index>, axis=0) has the per-step variable's shape by construction
 PER_STEP_SELECTORS = {"Gather"}
+# operators whose result has another extent than their data operand whenever they do anything at all
+EXTENT_CHANGING_PRODUCERS = {"Expand", "Tile", "Concat", "Pad", "Resize", "Upsample"}
 
 
 def rule_k(res: Results, idx: Index) -> None:
@@ -628,6 +630,8 @@ def rule_k(res: Results, idx: Index) -> None:
                         res.ok("R-C06k", site, key, f"`{last}` keeps the shape", fi.qualname)
                     elif last in PER_STEP_SELECTORS and any(kw.arg == "axis" and isinstance(kw.value, ast.Constant) and kw.value.value == 0 for kw in e.keywords):
                         res.ok("R-C06k", site, key, "per-step slice of the stacked sequence (Gather on axis 0 with the iteration index)", fi.qualname)
+                    elif last not in EXTENT_CHANGING_PRODUCERS:
+                        res.unresolved("R-C06k", site, key, f"bound to the result of `{last}`: whether it has the variable's shape is not decided", fi.qualname)
                     else:
                         res.violation("R-C06k", site, key, f"the body variable `{src(b.args[0], 30)}` is re-bound to the result of `{last}`: the equations of the body were traced for the variable's own shape, "
                                       f"`{last}` produces another one (stacked outputs and carries computed from it get other extents than JAX's)", fi.qualname)
